@@ -554,18 +554,47 @@ theorem utf16_pair_ok (v1 v2 : Nat) (h1 : HighSurrogate v1) (h2 : LowSurrogate v
   simp only [Utf8.utf16DecodeRune, hh, hl, Bool.and_self, if_true, Utf8.runeError, beq_eq_false_iff_ne, ne_eq]
   omega
 
+/-- `utf8.DecodeRune` never looks past an ASCII quote: its answer on `x :: r' ++ '"' :: rest` does not depend on `rest` -/
+theorem decodeRune_quote_indep (x : UInt8) (r' rest : Bytes) :
+    Utf8.decodeRune (x :: (r' ++ 0x22 :: rest)) = Utf8.decodeRune (x :: (r' ++ [0x22])) := by
+  have hq : Utf8.isCont 34 = false := by decide
+  by_cases hlt : x.toNat < Utf8.runeSelf
+  · simp [Utf8.decodeRune, hlt]
+  cases hli : Utf8.leadInfo x.toNat with
+  | none => simp [Utf8.decodeRune, hlt, hli]
+  | some t =>
+    obtain ⟨sz, lo, hi⟩ := t
+    obtain ⟨f1, f2, f3, f4⟩ := leadInfo_facts _ _ _ _ hli
+    match r' with
+    | [] =>
+      have h34 : 34 < lo := by omega
+      simp [Utf8.decodeRune, hlt, hli, h34]
+    | [a] =>
+      simp only [List.cons_append, List.nil_append, Utf8.decodeRune, hlt, hli, if_false]
+      repeat' split
+      all_goals first | rfl | simp_all
+    | [a, b] =>
+      simp only [List.cons_append, List.nil_append, Utf8.decodeRune, hlt, hli, if_false]
+      repeat' split
+      all_goals first | rfl | simp_all
+    | a :: b :: c :: t =>
+      simp only [List.cons_append, Utf8.decodeRune, hlt, hli, if_false]
+
 /-- One step of the loop on `c ++ r' ++ '"' :: rest` where `c` is a char of the grammar: the scanner
-continues, by some `k` bytes that stay inside the body, and what remains of the body is again chars. -/
-theorem peel (v : Bool) (c r' rest : Bytes) (hc : JChar v c) (hr : JChars v r') :
-    ∃ k f, stringStep v (c ++ r' ++ 0x22 :: rest) = .cont k f ∧ 1 ≤ k ∧ k ≤ (c ++ r').length ∧
+continues, by some `k` bytes that stay inside the body and with flags that do not depend on `rest`,
+and what remains of the body is again chars. -/
+theorem peel (v : Bool) (c r' : Bytes) (hc : JChar v c) (hr : JChars v r') :
+    ∃ k f, (∀ rest, stringStep v (c ++ r' ++ 0x22 :: rest) = .cont k f) ∧ 1 ≤ k ∧ k ≤ (c ++ r').length ∧
       JChars v ((c ++ r').drop k) := by
   cases hc with
   | plain x h1 h2 h3 h4 =>
     have hne : noEscape x = true := by simp [noEscape, h1, h2, h3, h4]
-    exact ⟨1, {}, by simp [stringStep, hne], by omega, by simp, by simpa using hr⟩
+    exact ⟨1, {}, by intro rest; simp [stringStep, hne], by omega, by simp, by simpa using hr⟩
   | utf8 p hm =>
-    obtain ⟨hrn, hlen, b0, p', rfl, hhigh⟩ := decodeRune_of_multi c (r' ++ 0x22 :: rest) hm
+    obtain ⟨-, hlen, b0, p', rfl, hhigh⟩ := decodeRune_of_multi c [] hm
     refine ⟨(b0 :: p').length, {}, ?_, by omega, by simp, by simpa using hr⟩
+    intro rest
+    obtain ⟨hrn, -⟩ := decodeRune_of_multi (b0 :: p') (r' ++ 0x22 :: rest) hm
     have := step_high v b0 (p' ++ r' ++ 0x22 :: rest) hhigh
     simp only [List.cons_append, List.append_assoc] at this hrn ⊢
     rw [this, hrn]
@@ -573,11 +602,12 @@ theorem peel (v : Bool) (c r' rest : Bytes) (hc : JChar v c) (hr : JChars v r') 
   | raw x hv hx =>
     subst hv
     have hhigh : ¬ x.toNat < 0x80 := by rw [UInt8.le_iff_toNat_le] at hx; simp at hx; omega
-    have hstep := step_high false x (r' ++ 0x22 :: rest) hhigh
+    have hstep := fun rest => step_high false x (r' ++ 0x22 :: rest) hhigh
+    have hind := decodeRune_quote_indep x r'
     simp only [List.cons_append, List.nil_append]
-    by_cases hrn : (Utf8.decodeRune (x :: (r' ++ 0x22 :: rest))).2 > 1
+    by_cases hrn : (Utf8.decodeRune (x :: (r' ++ [0x22]))).2 > 1
     · obtain ⟨hmulti, hle⟩ := decodeRune_multi _ hrn
-      generalize hk : (Utf8.decodeRune (x :: (r' ++ 0x22 :: rest))).2 = rn at *
+      generalize hk : (Utf8.decodeRune (x :: (r' ++ [0x22]))).2 = rn at *
       obtain ⟨b0, b1, tl, sz, lo, hi, htake, hli, hlen, hlo, hhi, hcont⟩ := hmulti
       obtain ⟨f1, f2, f3, f4⟩ := leadInfo_facts _ _ _ _ hli
       cases rn with
@@ -585,9 +615,9 @@ theorem peel (v : Bool) (c r' rest : Bytes) (hc : JChar v c) (hr : JChars v r') 
       | succ m =>
         simp only [List.take_succ_cons, List.cons.injEq] at htake
         obtain ⟨rfl, htake⟩ := htake
-        have hlen' : ((r' ++ 0x22 :: rest).take m).length = m := by
+        have hlen' : ((r' ++ 0x22 :: []).take m).length = m := by
           simp at hle ⊢; omega
-        have hall : ∀ b ∈ (r' ++ 0x22 :: rest).take m, 0x80 ≤ b.toNat ∧ b.toNat ≤ 0xBF := by
+        have hall : ∀ b ∈ (r' ++ 0x22 :: []).take m, 0x80 ≤ b.toNat ∧ b.toNat ≤ 0xBF := by
           rw [htake]
           intro b hb
           simp only [List.mem_cons] at hb
@@ -596,14 +626,17 @@ theorem peel (v : Bool) (c r' rest : Bytes) (hc : JChar v c) (hr : JChars v r') 
           · have := hcont b hb
             simp only [Utf8.isCont, Bool.and_eq_true, decide_eq_true_eq] at this
             exact this
-        obtain ⟨g1, g2⟩ := cont_peel m r' rest hlen' hall hr
+        obtain ⟨g1, g2⟩ := cont_peel m r' [] hlen' hall hr
         refine ⟨m + 1, {}, ?_, by omega, by simp; omega, by simpa using g2⟩
-        rw [hstep]; simp [hrn]
-    · have hfull := fullRune_of_quote x (r' ++ 0x22 :: rest) (by simp)
-      refine ⟨1, .nvnc, ?_, by omega, by simp, by simpa using hr⟩
-      rw [hstep]; simp [hrn, hfull]
+        intro rest
+        rw [hstep rest, hind rest, hk]; simp [hrn]
+    · refine ⟨1, .nvnc, ?_, by omega, by simp, by simpa using hr⟩
+      intro rest
+      have hfull := fullRune_of_quote x (r' ++ 0x22 :: rest) (by simp)
+      rw [hstep rest, hind rest]; simp [hrn, hfull]
   | esc x hx =>
     refine ⟨2, (if x == 0x2F then .nvnc else .nv), ?_, by omega, by simp, by simpa using hr⟩
+    intro rest
     simp only [List.cons_append, List.nil_append]
     rw [step_backslash]
     unfold SimpleEscape at hx
@@ -620,6 +653,7 @@ theorem peel (v : Bool) (c r' rest : Bytes) (hc : JChar v c) (hr : JChars v r') 
         omega
     refine ⟨6, ValueFlags.nv.join (escapeCanonFlags (hex4Value a b c d) [a, b, c, d]), ?_, by omega, by simp,
       by simpa using hr⟩
+    intro rest
     simp only [List.cons_append, List.nil_append]
     rw [step_backslash]
     simp [stringEscape, lenLt, hp, hsur]
@@ -632,7 +666,8 @@ theorem peel (v : Bool) (c r' rest : Bytes) (hc : JChar v c) (hr : JChars v r') 
     cases v with
     | false =>
       refine ⟨6, ValueFlags.nv.join (escapeCanonFlags (hex4Value a b c d) [a, b, c, d]), ?_, by omega, by simp, ?_⟩
-      · simp only [List.cons_append, List.nil_append]
+      · intro rest
+        simp only [List.cons_append, List.nil_append]
         rw [step_backslash]
         simp [stringEscape, lenLt, hp]
       · have : JChars false ([0x5C, 0x75, e, f, g, h] ++ r') :=
@@ -641,6 +676,7 @@ theorem peel (v : Bool) (c r' rest : Bytes) (hc : JChar v c) (hr : JChars v r') 
     | true =>
       refine ⟨12, ValueFlags.nv.join (escapeCanonFlags (hex4Value a b c d) [a, b, c, d]), ?_, by omega, by simp,
         by simpa using hr⟩
+      intro rest
       simp only [List.cons_append, List.nil_append]
       rw [step_backslash]
       have hdec := utf16_pair_ok _ _ hhi hlo
@@ -656,33 +692,36 @@ theorem jchars_cases (v : Bool) (body : Bytes) (h : JChars v body) :
     | utf8 p hm => obtain ⟨b0, b1, rest, _, _, _, rfl, _⟩ := hm; simp
     | _ => simp
 
-theorem loop_complete (v : Bool) (len : Nat) : ∀ (body rest : Bytes) (fuel : Nat), body.length ≤ len →
-    JChars v body → body.length + 1 ≤ fuel →
-    ∃ f, stringLoop v fuel (body ++ 0x22 :: rest) = (body.length + 1, f, .ok) := by
+theorem loop_complete (v : Bool) (len : Nat) : ∀ (body : Bytes), body.length ≤ len → JChars v body →
+    ∃ f, ∀ (rest : Bytes) (fuel : Nat), body.length + 1 ≤ fuel →
+      stringLoop v fuel (body ++ 0x22 :: rest) = (body.length + 1, f, .ok) := by
   induction len with
   | zero =>
-    intro body rest fuel hl _ hf
+    intro body hl _
     have : body = [] := by cases body <;> simp_all
     subst this
+    refine ⟨{}, ?_⟩
+    intro rest fuel hf
     cases fuel with
     | zero => omega
     | succ fuel =>
       have : noEscape 0x22 = false := by decide
-      exact ⟨{}, by simp [stringLoop, stringStep, this]⟩
+      simp [stringLoop, stringStep, this]
   | succ len ih =>
-    intro body rest fuel hl hj hf
+    intro body hl hj
     rcases jchars_cases v body hj with rfl | ⟨c, r', hc, hr, rfl, hne⟩
-    · exact ih [] rest fuel (by simp) JChars.nil hf
-    · obtain ⟨k, f, hstep, hk1, hk2, hrest⟩ := peel v c r' rest hc hr
+    · exact ih [] (by simp) JChars.nil
+    · obtain ⟨k, f, hstep, hk1, hk2, hrest⟩ := peel v c r' hc hr
       have hcl : (c ++ r').length = c.length + r'.length := List.length_append
+      obtain ⟨f', hl'⟩ := ih ((c ++ r').drop k) (by simp; omega) hrest
+      refine ⟨f.join f', ?_⟩
+      intro rest fuel hf
       cases fuel with
       | zero => omega
       | succ fuel =>
         have hdrop : (c ++ r' ++ 0x22 :: rest).drop k = (c ++ r').drop k ++ 0x22 :: rest :=
           List.drop_append_of_le_length hk2
-        obtain ⟨f', hl'⟩ := ih ((c ++ r').drop k) rest fuel (by simp; omega) hrest (by simp; omega)
-        refine ⟨f.join f', ?_⟩
-        simp only [stringLoop, hstep, hdrop, hl']
+        simp only [stringLoop, hstep rest, hdrop, hl' rest fuel (by simp; omega)]
         refine Prod.ext ?_ rfl
         simp only [List.length_drop]
         omega
@@ -699,13 +738,54 @@ theorem consumeString_complete (b : Bytes) (v : Bool) (n : Nat) (hn : n ≤ b.le
     have := congrArg List.length htake
     simp only [List.length_take, List.length_cons, List.length_append, List.length_nil] at this
     omega
-  obtain ⟨f, hl⟩ := loop_complete v body.length body (b.drop n) ((body ++ 0x22 :: b.drop n).length + 1)
-    (Nat.le_refl _) hj (by simp)
+  obtain ⟨f, hl⟩ := loop_complete v body.length body (Nat.le_refl _) hj
+  replace hl := hl (b.drop n) ((body ++ 0x22 :: b.drop n).length + 1) (by simp)
   refine ⟨f, ?_⟩
   rw [hb]
   simp only [consumeString, consumeStringResumable, Nat.lt_irrefl, if_false, gt_iff_lt, beq_self_eq_true, if_true, hl]
   refine Prod.ext ?_ rfl
   simp only [hlen] <;> omega
+
+/-- the answer on a string of the grammar (offset AND flags) does not depend on what follows it -/
+theorem consumeString_of_body (v : Bool) (body : Bytes) (hj : JChars v body) :
+    ∃ f, ∀ rest, consumeString (0x22 :: (body ++ 0x22 :: rest)) v = (body.length + 2, f, .ok) := by
+  obtain ⟨f, hl⟩ := loop_complete v body.length body (Nat.le_refl _) hj
+  refine ⟨f, ?_⟩
+  intro rest
+  have := hl rest ((body ++ 0x22 :: rest).length + 1) (by simp)
+  simp only [consumeString, consumeStringResumable, Nat.lt_irrefl, if_false, gt_iff_lt, beq_self_eq_true, if_true, this]
+  refine Prod.ext ?_ rfl
+  simp only; omega
+
+theorem simpleRun_quote (body rest : Bytes) :
+    simpleRun (body ++ 0x22 :: rest) = simpleRun (body ++ [0x22]) ∧ simpleRun (body ++ [0x22]) ≤ body.length := by
+  have hs : simpleByte 0x22 = false := by decide
+  induction body with
+  | nil => simp [simpleRun, hs]
+  | cons c body ih =>
+    by_cases hc : simpleByte c = true
+    · simp only [List.cons_append, simpleRun, hc, if_true, ih.1, List.length_cons]
+      exact ⟨trivial, by omega⟩
+    · simp [simpleRun, hc]
+
+theorem head_drop_quote (body rest : Bytes) (k : Nat) (hk : k ≤ body.length) :
+    ((body ++ 0x22 :: rest).drop k).head? = ((body ++ [0x22]).drop k).head? := by
+  rw [List.drop_append_of_le_length hk, List.drop_append_of_le_length hk]
+  cases body.drop k <;> simp
+
+theorem css_head (r : Bytes) :
+    consumeSimpleString (0x22 :: r) =
+      (match (r.drop (simpleRun r)).head? with
+       | some q => if q == 0x22 then simpleRun r + 2 else 0
+       | none => 0) := by
+  simp only [consumeSimpleString, beq_self_eq_true, if_true]
+  cases r.drop (simpleRun r) <;> simp
+
+/-- the fast path does not look past the closing quote either -/
+theorem simple_indep (body rest : Bytes) :
+    consumeSimpleString (0x22 :: (body ++ 0x22 :: rest)) = consumeSimpleString (0x22 :: (body ++ [0x22])) := by
+  obtain ⟨h1, h2⟩ := simpleRun_quote body rest
+  rw [css_head, css_head, h1, head_drop_quote body rest _ h2]
 
 /-- strings are prefix-free: no string of the grammar is a proper prefix of another -/
 theorem jstring_prefix_free (v : Bool) (p q : Bytes) (hp : JString v p) (hq : JString v q) (hpq : p <+: q) : p = q := by
